@@ -22,6 +22,13 @@ Bits(x) == {i \in 0..7 : (x \div (2^i)) % 2 = 1}
 Increasing == \A i \in 1..(Len(out)-1) : out[i] < out[i+1]
 AllSub == \A i \in 1..Len(out) : IsSub(out[i], set)
 Complete == finished => SetOfSeq(out) = {x \in 0..(W-1) : IsSub(x, set)}
+\* flip_files works rank by rank (byte by byte) with three delta swaps; on one byte: the result is the mirror image
+Shl(x, n) == (x * (2^n)) % W
+Shr(x, n) == x \div (2^n)
+FlipByteImpl(x) == LET a == (Shr(x, 1) & 85) | Shl(x & 85, 1)
+                       b == (Shr(a, 2) & 51) | Shl(a & 51, 2)
+                   IN (Shr(b, 4) & 15) | Shl(b & 15, 4)
+FlipFilesOK == Bits(FlipByteImpl(set)) = {7 - i : i \in Bits(set)} /\ FlipByteImpl(FlipByteImpl(set)) = set
 \* the order on sets used when judging logged subset sequences is the numeric order
 OrderAgrees == \A i \in 1..(Len(out)-1) : BBLess(Bits(out[i]), Bits(out[i+1]))
 =============================================================================
